@@ -135,6 +135,7 @@ fn run_job(job: Job, miri: bool) -> (Job, Outcome, usize) {
             delay_scale_us: 0,
             delay_target: 0,
             ask_again: 0,
+            nested: false,
         });
         return (placeholder, if dead { Outcome::Deadlock(msg) } else { Outcome::Stalled(msg) }, 0);
     }
@@ -248,6 +249,7 @@ fn handle(
                             rep.count("runs_drained_to_end_marker");
                         }
                         rep.add("calls_of_next_after_the_end_marker", seen.asked_after_end as u64);
+                        rep.add("nested_parallel_calls_inside_a_consumer", seen.nested_calls as u64);
                         if !seen.errs.is_empty() {
                             rep.count("runs_with_error_received");
                         }
@@ -706,6 +708,7 @@ fn memory_mode(ctx: &Ctx, rep: &mut Report) {
                 delay_scale_us: 2,
                 delay_target: 0,
                 ask_again: 0,
+                nested: false,
             })
         };
         rep.evaluations += 1;
